@@ -67,8 +67,11 @@ def import_rules(chk, tier, pid, rules, why, floor, only=None):
 # Clauses of one property that are necessary conditions of another (applied by vcheck after the property's own rules; C01 and C02 list
 # theirs in their modules). (source property, rules, reason, counted instances on the pinned tree, instance filter)
 IMPORTS = {
-    "C01": [("C06", {"initial-state"}, "the eager reader starts from the neutral state", 2, lambda i: "(eager)" in i["fn"])],
-    "C02": [("C06", {"initial-state"}, "the eager reader starts from the neutral state", 2, lambda i: "(eager)" in i["fn"])],
+    "C01": [("C06", {"initial-state", "object-builders"}, "the eager reader starts from the neutral state; build_object stops only at read_until / read_to", 5,
+             lambda i: "(eager)" in i["fn"] or i["fn"] == "build_object")],
+    "C02": [("C06", {"initial-state", "object-builders"}, "the eager reader starts from the neutral state; build_object stops only at read_until / read_to", 5,
+             lambda i: "(eager)" in i["fn"] or i["fn"] == "build_object"),
+            ("C01", {"value-reader-conditions", "value-separator", "vr-value-reader"}, "every value is read back as it was written before it is rewritten", 90, None)],
     "C06": [("C07", {"sanitize-length", "length-provenance"}, "both readers derive the value length from the header in the same way", 36, None)],
     "C13": [("C11", {"extend-truncate", "value-truncate"}, "Truncate and Push* delegate to PrimitiveValue::truncate / extend_*", 30, None)],
     "C09": [("C03", {"vr-header-form", "header-layout", "header-bytes-read"}, "the meta group is written and read with the Explicit VR Little Endian codec", 85,
